@@ -35,22 +35,31 @@ func startWatchdog() {
 	}
 	go func() {
 		last, since := progressTicks.Load(), time.Now()
+		var looked time.Time
 		for {
 			time.Sleep(500 * time.Millisecond)
 			if cur := progressTicks.Load(); cur != last {
 				last, since = cur, time.Now()
 				continue
 			}
-			if time.Since(since) < limit {
+			if time.Since(since) < limit || time.Since(looked) < 5*time.Second {
 				continue
 			}
+			looked = time.Now()
 			buf := make([]byte, 4<<20)
 			buf = buf[:runtime.Stack(buf, true)]
 			if where := blockedInLibrary(string(buf)); where != "" {
 				fmt.Fprintf(os.Stderr, "HANG-IN-LIBRARY: no progress for %v; a call never returned: %s\n", limit, where)
 				os.Exit(67)
 			}
-			fmt.Fprintf(os.Stderr, "harness: watchdog: no progress for %v\n%s\n", limit, clipStr(string(buf), 6000))
+			// Nothing is blocked inside the library: the machine is slow
+			// (a worker was once seen 40 s inside open(2) on a loaded
+			// disk) or the simulator is stuck. Give it much longer before
+			// giving up with an infrastructure exit.
+			if time.Since(since) < 8*limit {
+				continue
+			}
+			fmt.Fprintf(os.Stderr, "harness: watchdog: no progress for %v\n%s\n", 8*limit, clipStr(string(buf), 6000))
 			os.Exit(2)
 		}
 	}()
